@@ -18,6 +18,7 @@ import SkinnyVerif.Lemmas.VecCounter128
 import SkinnyVerif.Lemmas.VecCounter256
 import SkinnyVerif.Lemmas.VecCounter64
 import SkinnyVerif.Lemmas.VecCounterM
+import SkinnyVerif.Gen.Facts
 
 namespace SkinnyVerif.Properties
 open SkinnyVerif SkinnyVerif.Gen SkinnyVerif.Lemmas
@@ -327,5 +328,58 @@ example (img : BitVec 512) (j : Nat) (hj : j < 4) :
       (columnValue (pos128 j) img + (j + 4)) % 2 ^ 128 := by
   rw [C05_lane_increment_sequences.1 _ img j (by decide) hj]
   nat_cases j 4 <;> rfl
+
+end SkinnyVerif.Properties
+
+/-! ## the increment calls the source actually makes
+
+`tools/facts.py` reads, on every run, the list of `*_ctr_increment(counter, column, increment)` calls out of
+`*_set_counter` and `*_encrypt` of each vector CTR file (`Gen.Facts.laneIncs`; increment `-1` = `ctx->pending`).
+With the theorem above: after `set_counter`'s calls lane `j` is `j` ahead of lane 0 (the stagger), and the calls of
+`encrypt` advance every lane by `pending` - for each of the four files, whatever order the calls are written in. -/
+
+namespace SkinnyVerif.Properties
+open SkinnyVerif SkinnyVerif.Gen SkinnyVerif.Lemmas
+
+def callsOf (name : String) : List (Nat × Int) := ((Gen.Facts.laneIncs.find? (fun x => x.1 == name)).map (·.2)).getD []
+def asOps (calls : List (Nat × Int)) (pending : Nat) : List (Nat × BitVec 32) :=
+  calls.map (fun ci => (ci.1, BitVec.ofNat 32 (if ci.2 = -1 then pending else ci.2.toNat)))
+
+/-- the calls are well-formed (literal columns in range, small increments) and add `want j` to lane `j` -/
+def callsOK (n : Nat) (calls : List (Nat × Int)) (pending : Nat) (want : Nat → Nat) : Bool :=
+  (asOps calls pending).all (fun op => decide (op.1 < n) && decide (op.2.toNat + 255 < 2 ^ 32)) &&
+  (List.range n).all (fun j => totalFor (asOps calls pending) j == want j)
+
+theorem C05_source_calls_checked :
+    callsOK 4 (callsOf "skinny128-ctr-vec128.c:skinny128_ctr_vec128_set_counter") 0 (fun j => j) = true ∧
+    callsOK 8 (callsOf "skinny128-ctr-vec256.c:skinny128_ctr_vec256_set_counter") 0 (fun j => j) = true ∧
+    callsOK 8 (callsOf "skinny64-ctr-vec128.c:skinny64_ctr_vec128_set_counter") 0 (fun j => j) = true ∧
+    callsOK 8 (callsOf "mantis-ctr-vec128.c:mantis_ctr_vec128_set_counter") 0 (fun j => j) = true ∧
+    (List.range 9).all (fun p =>
+      callsOK 4 (callsOf "skinny128-ctr-vec128.c:skinny128_ctr_vec128_encrypt") p (fun _ => p) &&
+      callsOK 8 (callsOf "skinny128-ctr-vec256.c:skinny128_ctr_vec256_encrypt") p (fun _ => p) &&
+      callsOK 8 (callsOf "skinny64-ctr-vec128.c:skinny64_ctr_vec128_encrypt") p (fun _ => p) &&
+      callsOK 8 (callsOf "mantis-ctr-vec128.c:mantis_ctr_vec128_encrypt") p (fun _ => p)) = true := by
+  decide +kernel
+
+theorem callsOK_spec {w : Nat} (F : IncFamily w) (calls : List (Nat × Int)) (pending : Nat) (want : Nat → Nat)
+    (h : callsOK F.n calls pending want = true) (img : BitVec w) (j : Nat) (hj : j < F.n) :
+    columnValue (F.pos j) (applyIncs F img (asOps calls pending)) = (columnValue (F.pos j) img + want j) % F.M := by
+  simp only [callsOK, Bool.and_eq_true, List.all_eq_true, decide_eq_true_eq, beq_iff_eq] at h
+  rw [applyIncs_column F _ (fun op hop => h.1 op hop) img j hj, h.2 j (List.mem_range.mpr hj)]
+
+/-- **the stagger written in `skinny128_ctr_vec128_set_counter`**: from an image whose four lanes hold the same block,
+lane `j` ends at that block + `j`; **the batch step written in `..._encrypt`**: every lane advances by `pending` -/
+theorem C05_vec128_stagger_and_step (img : BitVec 512) (j : Nat) (hj : j < 4) (p : Nat) (hp : p ≤ 8) :
+    columnValue (pos128 j) (applyIncs fam128 img (asOps (callsOf "skinny128-ctr-vec128.c:skinny128_ctr_vec128_set_counter") 0)) =
+      (columnValue (pos128 j) img + j) % 2 ^ 128 ∧
+    columnValue (pos128 j) (applyIncs fam128 img (asOps (callsOf "skinny128-ctr-vec128.c:skinny128_ctr_vec128_encrypt") p)) =
+      (columnValue (pos128 j) img + p) % 2 ^ 128 := by
+  have hc := C05_source_calls_checked
+  constructor
+  · exact callsOK_spec fam128 _ 0 (fun j => j) hc.1 img j hj
+  · have := (List.all_eq_true.mp hc.2.2.2.2) p (List.mem_range.mpr (by omega))
+    simp only [Bool.and_eq_true] at this
+    exact callsOK_spec fam128 _ p (fun _ => p) this.1.1.1 img j hj
 
 end SkinnyVerif.Properties
